@@ -305,32 +305,49 @@ def roundtrip_corpus(out, quick):
                               "state": {"qpos": d.qpos.tolist(), "qvel": d.qvel.tolist()}, "nontrivial": bool(d.ncon >= 3 and d.nl >= 1 and d.nf >= 1 and d.ne >= 1)})
 
 
-def roundtrip_observations(out):
-    """baseline behaviour recorded, not judged: get_data rebuilds the active sets from heuristics (rows with an all-zero Jacobian are
-    taken for padding; contacts with dist > 0 are taken for inactive even inside the margin)"""
-    try:
-        m = mujoco.MjModel.from_xml_string(RT_XML.format(cone="pyramidal", condim=3, jac="dense", eq='<weld body1="anchor" relpose="0 0 0.1 1 0 0 0"/>'))
-        d = mujoco.MjData(m); d.qpos[14] = 0.2
-        mujoco.mj_forward(m, d)
-        d2 = mjx.get_data(m, mjx.put_data(m, d))
-        out["notes"].append("OBSERVATION weld of a body with one slide dof (5 of its 6 rows have a zero Jacobian): MjData ne=%d nefc=%d -> get_data(put_data) ne=%d nefc=%d"
-                            % (d.ne, d.nefc, d2.ne, d2.nefc))
-        xml = RT_XML.format(cone="pyramidal", condim=3, jac="dense", eq="").replace('<geom name="floor"', '<geom name="floor" margin="0.05"')
-        m = mujoco.MjModel.from_xml_string(xml)
-        d = mujoco.MjData(m); d.qpos[2] = 0.12; d.qpos[9] = 0.07
-        mujoco.mj_forward(m, d)
-        d2 = mjx.get_data(m, mjx.put_data(m, d))
-        out["notes"].append("OBSERVATION contacts inside the margin with dist > 0: MjData ncon=%d nefc=%d (dist %s) -> get_data(put_data) ncon=%d nefc=%d"
-                            % (d.ncon, d.nefc, np.round(np.array(d.contact.dist), 3).tolist(), d2.ncon, d2.nefc))
-    except Exception as e:
-        out["notes"].append("observation run failed: %s" % str(e)[:120])
+def roundtrip_known(out):
+    """fixed replays of KNOWN findings C44-F1 / C44-F2: get_data rebuilds the active sets from heuristics (rows with an all-zero Jacobian
+    are taken for padding; contacts with dist > 0 are taken for inactive even inside the margin).  Each replay reports whether the loss is
+    EXACTLY of that class; any other loss is reported as an ordinary round-trip failure."""
+    out["findings"] = []
+    # ---- C44-F1: weld of a body with a single slide dof: 5 of the 6 weld rows have an all-zero Jacobian
+    xml = RT_XML.format(cone="pyramidal", condim=3, jac="dense", eq='<weld body1="anchor" relpose="0 0 0.1 1 0 0 0"/>')
+    m = mujoco.MjModel.from_xml_string(xml)
+    d = mujoco.MjData(m); d.qpos[14] = 0.2
+    mujoco.mj_forward(m, d)
+    d2 = mjx.get_data(m, mjx.put_data(m, d))
+    J = dense_J(m, d)
+    zero = ~(J != 0).any(axis=1)
+    keep = ~zero
+    exact = (d2.nefc == int(keep.sum()) and d2.ncon == d.ncon and np.allclose(dense_J(m, d2), J[keep], rtol=0, atol=1e-12)
+             and all(np.allclose(np.array(getattr(d2, f)), np.array(getattr(d, f))[keep], rtol=0, atol=1e-12) for f in RT_EFC))
+    lost = d2.nefc != d.nefc
+    out["findings"].append({"cls": "zero-jacobian-row-dropped", "lost": bool(lost), "exactly_this_class": bool(lost and exact and zero.sum() > 0), "mjcf": xml,
+                            "state": {"qpos": d.qpos.tolist()}, "what": "MjData ne=%d nefc=%d (%d rows with an all-zero Jacobian) -> get_data(put_data) ne=%d nefc=%d"
+                            % (d.ne, d.nefc, int(zero.sum()), d2.ne, d2.nefc)})
+    # ---- C44-F2: three active contacts inside the margin with dist > 0
+    xml = RT_XML.format(cone="pyramidal", condim=3, jac="dense", eq="").replace('<geom name="floor"', '<geom name="floor" margin="0.05"')
+    m = mujoco.MjModel.from_xml_string(xml)
+    d = mujoco.MjData(m); d.qpos[2] = 0.12; d.qpos[9] = 0.07
+    mujoco.mj_forward(m, d)
+    d2 = mjx.get_data(m, mjx.put_data(m, d))
+    dist = np.array(d.contact.dist)
+    pen = dist <= 0
+    exact = (d2.ncon == int(pen.sum()) and (pen.sum() == 0 or np.allclose(np.array(d2.contact.dist), dist[pen], rtol=0, atol=1e-12)))
+    lost = d2.ncon != d.ncon
+    out["findings"].append({"cls": "positive-dist-contact-dropped", "lost": bool(lost), "exactly_this_class": bool(lost and exact and (~pen).sum() > 0), "mjcf": xml,
+                            "state": {"qpos": d.qpos.tolist()}, "what": "MjData ncon=%d nefc=%d (dist %s, margin 0.05) -> get_data(put_data) ncon=%d nefc=%d"
+                            % (d.ncon, d.nefc, np.round(dist, 3).tolist(), d2.ncon, d2.nefc)})
 
 
 def mode_oracle(req):
     rng = np.random.default_rng(req["seed"])
     out = {"wheel_version": mujoco.__version__, "checks": [], "notes": []}
     roundtrip_corpus(out, req.get("quick", False))
-    roundtrip_observations(out)
+    try:
+        roundtrip_known(out)
+    except Exception as e:
+        out["notes"].append("known-finding replays failed: %s" % str(e)[:160])
 
     def rec(kind, model, what, diff, where, tol, extra=None):
         ok = diff is not None and diff <= tol
